@@ -170,3 +170,83 @@ def state_restored_ok(si: int) -> bool:
 
 
 HLIM = 250 if TIER == 'quick' else 6000
+
+
+# ---- documents whose attributes hold the odd values the bs4 API permits; twin forms --------------------------------
+
+ODD_MARKUP = '<div id="r"><p id="a" class="k">x</p><p id="b">y</p><form><input type="submit"><input type="radio" name="g"></form></div>'
+ODD_ATTRS = [('a', 'data-ids', [3, 4]), ('a', 't', [b'next', None]), ('b', 'class', ['k', 5]), ('b', 'u', ('x', 1)),
+             ('a', 'n', 7), ('b', 'z', None), ('a', 'w', ['a', ['b']])]
+ODD_SELECTORS = [sv.compile(s) for s in ('[data-ids="3 4"]', '[t]', '.k', '[u~=x]', 'p[n="7"]', '[z]', '[w]', ':not([t])', '#a', 'p',
+                                         ':is(.k, [n])', 'p:has(+ p)', ':default', ':indeterminate')]
+
+
+def _snap(v):
+    if isinstance(v, list):
+        return ('list', id(v), [_snap(x) for x in v])
+    if isinstance(v, tuple):
+        return ('tuple', [_snap(x) for x in v])
+    return (type(v).__name__, repr(v))
+
+
+def odd_attrs_unchanged_ok(si: int, k: int) -> bool:
+    """
+    pre: 0 <= si < len(ODD_SELECTORS)
+    pre: 0 <= k < 4
+    post: _
+    """
+    # attribute values that are lists with non-string items, bytes, None, numbers: after select / match / filter /
+    # closest every attrs dictionary still holds the same objects with the same contents
+    si, k = concrete(si), concrete(k)
+    with notrace():
+        d = bs4.BeautifulSoup(ODD_MARKUP, 'html.parser')
+        for i, name, val in ODD_ATTRS:
+            tg.by_id(d, i).attrs[name] = val
+        els = _els(d)
+        before = [[(a, _snap(v)) for a, v in t.attrs.items()] for t in els]
+        c = ODD_SELECTORS[si]
+        if k == 0:
+            c.select(d)
+        elif k == 1:
+            for e in els:
+                c.match(e)
+        elif k == 2:
+            c.filter(els[0])
+            c.filter(els)
+        else:
+            c.closest(els[-1])
+            c.select_one(d)
+        after = [[(a, _snap(v)) for a, v in t.attrs.items()] for t in els]
+    return ret(before == after)
+
+
+TWIN_MARKUP = ('<body><form><input type="radio" name="g"><button type="submit">go</button></form>'
+               '<form><input type="radio" name="g"><button type="submit">go</button></form>'
+               '<div><form><input type="radio" name="g"><button type="submit">go</button></form></div>'
+               '<section class="m"><ul><li>item</li></ul></section><section class="b"><ul><li>item</li></ul></section></body>')
+TWIN_SELECTORS = [sv.compile(s) for s in (':default', ':indeterminate', 'form :default', ':checked, :default', '.m li', '.b li',
+                                          'div button', ':not(.m) li', 'section:has(li)', 'li:first-child', 'form > *',
+                                          ':is(.b, div) :is(li, button)', 'ul > li:only-child')]
+
+
+def twins_ok(si: int, parser: int) -> bool:
+    """
+    pre: 0 <= si < len(TWIN_SELECTORS)
+    pre: 0 <= parser <= 2
+    post: _
+    """
+    # documents containing distinct nodes with identical markup (bs4 Tags compare and hash structurally): one select()
+    # over the document agrees with match() on every element alone, and with select() from each sub-tree
+    si, parser = concrete(si), concrete(parser)
+    with notrace():
+        d = bs4.BeautifulSoup(TWIN_MARKUP, ('html.parser', 'lxml', 'html5lib')[parser])
+        c = TWIN_SELECTORS[si]
+        els = _els(d)
+        sel = [id(e) for e in c.select(d)]
+        ok = sel == [id(e) for e in els if c.match(e)]
+        ok = ok and [id(e) for e in c.filter(els)] == sel
+        for sub in els:
+            if sub.name in ('form', 'section', 'div', 'body'):
+                inner = [id(e) for e in c.select(sub)]
+                ok = ok and inner == [id(e) for e in _els(sub) if id(e) in sel]
+    return ret(ok)
